@@ -242,6 +242,9 @@ class GaussianKDE(DensityEstimator):
         N = int(5 * (self.upr_limit - self.lwr_limit) / self.h)
         x = linspace(self.lwr_limit, self.upr_limit, N)
         p = self(x)
+        # the grid covers a finite range, so re-normalise the tabulated density on
+        # it: otherwise the mean is scaled by the captured mass (not shift-covariant)
+        p = p / simpson(p, x=x)
 
         mu = simpson(p * x, x=x)
         dx = x - mu
